@@ -54,7 +54,7 @@ type Run struct {
 func NewRun(t *Tape, res *Result, trace bool) *Run {
 	res.Faults = map[string]int{}
 	res.Probes = map[string]int{}
-	res.Cfg = map[string]any{}
+	res.Cfg = map[string]any{"depth": Depth}
 	return &Run{T: t, Res: res, h: sha256.New(), trace: trace}
 }
 
